@@ -102,8 +102,22 @@ deriving DecidableEq, Repr, Inhabited
 def Entry.key (e : Entry) : Key :=
   ⟨e.fee, weight e.size e.cycles, e.ancFee, weight e.ancSize e.ancCycles⟩
 
-def Key.minFeeWeight (k : Key) : Nat × Nat :=
+/-- `min_fee_and_weight` as it was before /repo's sort-key repair (F35): a pair with `ancestors_weight = 0`
+    (stale aggregates saturated to zero) could be selected -/
+def Key.minFeeWeightPreF35 (k : Key) : Nat × Nat :=
   if k.fee * k.ancWeight < k.ancFee * k.weight then (k.fee, k.weight) else (k.ancFee, k.ancWeight)
+
+/-- `impl Ord for AncestorsScoreSortKey` before the repair -/
+def Key.cmpPreF35 (a b : Key) : Ordering :=
+  let (f, w) := a.minFeeWeightPreF35
+  let (f', w') := b.minFeeWeightPreF35
+  let l := f * w'
+  let r := f' * w
+  if l = r then compare a.ancWeight b.ancWeight else compare l r
+
+/-- `min_fee_and_weight` (repaired: a zero-weight ancestors pair is never selected) -/
+def Key.minFeeWeight (k : Key) : Nat × Nat :=
+  if k.ancWeight = 0 ∨ k.fee * k.ancWeight < k.ancFee * k.weight then (k.fee, k.weight) else (k.ancFee, k.ancWeight)
 
 /-- `impl Ord for AncestorsScoreSortKey` -/
 def Key.cmp (a b : Key) : Ordering :=
